@@ -279,7 +279,17 @@ def api_calls(rng, n, a5=None):
                 ('cell_to_parent', (c, _rr(c) + 1)),
                 ('lonlat_to_cell', ((rng.uniform(-180, 180), rng.uniform(-90, 90)), rng.choice([30, 31]))),
                 ('cell_to_children', (c, 31)),
+                # option values of the wrong type: the call fails half-way through building the ring
+                ('cell_to_boundary', (c, {'segments': rng.choice([2.0, 3.5, '3', [2]])})),
+                ('cell_to_boundary', (random_valid_id(rng, 0, 1), {'segments': rng.choice([2.0, '2'])})),
+                ('lonlat_to_cell', ((rng.uniform(-180, 180), 'x'), rng.randint(2, 20))),
+                ('lonlat_to_cell', ((rng.uniform(-180, 180), rng.uniform(-90, 90)), 5.5)),
+                ('cell_to_lonlat', ('12',)),
             ]))
+            # ... and what a failed call may have left behind shows on the coarsest cells (whole faces and quintants are built by code of their own)
+            c01 = random_valid_id(rng, 0, 1)
+            calls.append(rng.choice([('cell_to_boundary', (c01, {'segments': 1})), ('cell_to_boundary', (c01,)), ('cell_to_lonlat', (c01,)),
+                                     ('cell_to_boundary', (random_valid_id(rng, 2, 6), {'segments': 2}))]))
         elif k == 14 and a5 is not None:
             # a published cell corner given back (the rare fallback path of lonlat_to_cell), then a query next to it at the same resolution
             c = random_valid_id(rng, 2, 29)
@@ -370,7 +380,7 @@ def table_snapshot(mods):
         if m in mods and hasattr(mods[m], n):
             h.update(repr(canon(getattr(mods[m], n).get_vertices())).encode())
     if 'a5.projections.dodecahedron' in mods:
-        h.update(repr(canon(mods['a5.projections.dodecahedron'].crs._vertices)).encode())
+        h.update(repr(canon(mods['a5.projections.dodecahedron'].crs.vertices)).encode())
     return h.hexdigest()
 
 def canon_obj(v):
@@ -643,7 +653,7 @@ def near_frame_calls(mods, rng, n, fine=True):
     crs = mods['a5.projections.dodecahedron'].crs
     to_lonlat = mods['a5.core.coordinate_transforms'].to_lonlat
     to_spherical = mods['a5.core.coordinate_transforms'].to_spherical
-    verts = list(crs._vertices)
+    verts = list(crs.vertices)
     calls = []
     for i in range(n):
         v = verts[i % 12] if i < 2 * n // 3 else rng.choice(verts)
@@ -653,7 +663,7 @@ def near_frame_calls(mods, rng, n, fine=True):
         calls.append(('lonlat_to_cell', (p, rng.choice([27, 28, 29]) if fine else rng.randint(0, 29))))
     return calls
 
-def reaching_inputs(a5, hot, pool, lines):
+def reaching_inputs(a5, hot, pool, lines, cold_too=True):
     """{hot function: [calls of the pool whose execution runs one of the lines at which it touches shared state]} (line tracing inside the hot functions only)"""
     names = {h.split('.')[-1]: h for h in hot}
     libdir = os.path.join(os.path.realpath(REPO), 'a5')
@@ -681,6 +691,16 @@ def reaching_inputs(a5, hot, pool, lines):
             sys.settrace(None)
         for h in seen:
             reach[h].append(c)
+    # a hot function that no call reaches in a package that has already been used may run only at a cold start (a table built on first use):
+    # ask again, each call in a package imported anew and touched by nothing else
+    if cold_too and any(not v for v in reach.values()):
+        heavy = [c for c in pool if c[0] in ('lonlat_to_cell', 'cell_to_lonlat', 'cell_to_boundary')]
+        for c in heavy[:10]:
+            a5c, _ = fresh_a5()
+            cold = reaching_inputs(a5c, hot, [c], lines, cold_too=False)
+            for h, cs in cold.items():
+                if cs and not any(x == c for x in reach[h]) and len(reach[h]) < 6:
+                    reach[h].append(c)
     return reach
 
 def directed_pairs(rng, ref_inventory, per_fn=4):
@@ -756,7 +776,7 @@ def edge_cells(a5, mods, rng, n):
     to_lonlat = mods['a5.core.coordinate_transforms'].to_lonlat
     to_spherical = mods['a5.core.coordinate_transforms'].to_spherical
     cells = []
-    verts = list(crs._vertices)[12:]
+    verts = list(crs.vertices)[12:]
     for _ in range(n):
         v = rng.choice(verts)
         lon, lat = to_lonlat(to_spherical(v))
@@ -1063,7 +1083,7 @@ def face_centre_points(mods):
     to_lonlat = mods['a5.core.coordinate_transforms'].to_lonlat
     to_spherical = mods['a5.core.coordinate_transforms'].to_spherical
     out = []
-    for v in list(crs._vertices)[:12]:
+    for v in list(crs.vertices)[:12]:
         lo, la = to_lonlat(to_spherical(v))
         out.append((((lo + 180) % 360) - 180, la))
     return out
@@ -1126,6 +1146,51 @@ def run_mutate_first(name, args):
     if isinstance(r1, list) and r1:
         r1.pop(); r1.reverse(); r1.append(r1[0])
     return canon(call(a5f, name, copy.deepcopy(tuple(args)))) != c1
+
+def warmup_history_search(rng, n_warm, n_probe):
+    """a long run of *easy* calls (centres of cells asked back, the first sample of every search hits), then generic points: anything the library
+    learns from the calls it has served (a counter, a hint, an adapted radius or sample count) shows as a probe that answers differently
+    than on a fresh import"""
+    fails, n = [], 0
+    gen_a5, _ = fresh_a5()
+    a5w, _ = fresh_a5()
+    from refids import random_valid_id as _rv
+    hist = []
+    r0 = rng.choice([3, 5, 8])
+    for _ in range(n_warm):
+        c = _rv(rng, r0, r0)
+        try:
+            p = tuple(gen_a5.cell_to_lonlat(c))
+        except Exception:
+            continue
+        hist.append(('lonlat_to_cell', (p, r0)))
+    for name, args in hist:
+        try:
+            call(a5w, name, args)
+        except Exception:
+            pass
+        n += 1
+    import math as _m
+    for _ in range(n_probe):
+        p = (rng.uniform(-180, 180), _m.degrees(_m.asin(rng.uniform(-1, 1))))
+        probe = ('lonlat_to_cell', (p, rng.choice([2, 6, 9, 15, 22, 29])))
+        try:
+            rw = canon(call(a5w, *probe))
+        except Exception as e:  # noqa
+            rw = ('EXC', type(e).__name__)
+        a5c, _ = fresh_a5()
+        try:
+            rc = canon(call(a5c, *probe))
+        except Exception as e:  # noqa
+            rc = ('EXC', type(e).__name__)
+        n += 1
+        hist.append(probe)
+        if rw != rc:
+            # replay needs the warm-up and the probes made so far
+            if run_history(hist) and run_history(hist):
+                fails.append({'what': f'{probe[0]}{probe[1]!r} returns a different value after {len(hist) - 1} earlier calls ({n_warm} of them cell centres asked back) than on a fresh import (warm {str(rw)[:60]}, cold {str(rc)[:60]})', 'history': list(hist)})
+                break
+    return fails, {'warmup_history_calls': n}
 
 def run_history(hist):
     """True iff the last call of the history returns something else than on a fresh import"""
